@@ -9,7 +9,7 @@ import (
 var recFixed = ev.New("C18", "smoke-fixed",
 	"one hand-written configuration with every server protocol (direct tunnel with a domain target, socks5, http, none, ss2022), an ss2022 chain, a plain "+
 		"resolver, a route with a destination prefix criterion and the API, driven by every probe kind of the smoke script; this is also the self-test of the "+
-		"harness' protocol speakers. Non-trivial: all ten probes succeed.").Require("all-probes-ok")
+		"harness' protocol speakers. Non-trivial: all fourteen probes succeed.").Require("all-probes-ok")
 
 const fixedConfig = `{
  "servers":[
@@ -40,6 +40,12 @@ func TestSmokeFixed(t *testing.T) {
 			{Kind: "tcp-http", Server: "H", Addr: "127.0.0.1:@@P3@@", Target: "echo.test:@@ECHO@@", Seed: 5, Size: 100, ExpectEcho: true},
 			{Kind: "tcp-none", Server: "N", Addr: "127.0.0.1:@@P4@@", Target: "127.0.0.1:@@ECHO@@", Seed: 6, Size: 100, ExpectEcho: true},
 			{Kind: "udp-none", Server: "N", Addr: "127.0.0.1:@@P4@@", Target: "echo.test:@@ECHO@@", Seed: 7, Size: 100, ExpectEcho: true},
+			// payload-less connects: the relays wait 250 ms for an initial payload (ss2022 client is the
+			// upstream), then the target speaks first / the client speaks late
+			{Kind: "tcp-socks5", Server: "K", Addr: "127.0.0.1:@@P2@@", Target: "echo.test:@@GREET@@", Seed: 10, Size: 64, ExpectEcho: true, Silent: true, Greet: true},
+			{Kind: "tcp-http", Server: "H", Addr: "127.0.0.1:@@P3@@", Target: "127.0.0.1:@@GREET@@", Seed: 11, Size: 64, ExpectEcho: true, Silent: true, Greet: true},
+			{Kind: "tcp-none", Server: "N", Addr: "127.0.0.1:@@P4@@", Target: "echo.test:@@GREET@@", Seed: 12, Size: 64, ExpectEcho: true, Silent: true, Greet: true},
+			{Kind: "tcp-tunnel", Server: "T", Addr: "127.0.0.1:@@P0@@", Seed: 13, Size: 64, ExpectEcho: true, Silent: true, SilentMs: 400},
 			// exactly the 16+11+16 bytes an aes-128 single-user server reads before it can authenticate
 			{Kind: "reject", Server: "S", Addr: "127.0.0.1:@@P1@@", Seed: 8, Size: 43, ExpectRST: true},
 			{Kind: "udp-garbage", Server: "S", Addr: "127.0.0.1:@@P1@@", Seed: 9, Size: 300},
